@@ -181,6 +181,21 @@ func init() {
 		"github.com/yorkie-team/yorkie/server/logging.New":           func(fr *frame, args []value) value { return (*value)(nil) },
 		// background tasks (publication, snapshot storing) are outside
 		"(*github.com/yorkie-team/yorkie/server/backend.Backend).Go": noop,
+		// runtime-linked helper behind maps.Clone: shallow copy
+		"maps.clone": func(fr *frame, args []value) value {
+			itf := args[0].(iface)
+			m, ok := itf.v.(*omap)
+			if !ok || m == nil {
+				return itf
+			}
+			out := &omap{keyType: m.keyType, index: map[int][]*mentry{}}
+			for _, e := range m.entries {
+				if !e.deleted {
+					out.insert(fr.i.cx, e.key, e.val)
+				}
+			}
+			return iface{t: itf.t, v: out}
+		},
 		"time.Now":   ext۰time۰Now,
 		"time.Since": ext۰time۰Since,
 		"google.golang.org/protobuf/proto.Marshal":   ext۰proto۰Marshal,
